@@ -685,6 +685,9 @@ func c10CacheReadsOwnRepo(c *Ctx) {
 	reads := map[string]bool{"os.ReadFile": true, "os.Stat": true, "os.Lstat": true, "os.Open": true, "os.OpenFile": true, "os.ReadDir": true, "io/ioutil.ReadFile": true}
 	for _, T := range []string{"LocalActionsCache", "LocalReusableWorkflowCache"} {
 		n, bad := 0, ""
+		// the methods of the cache, their closures, and the module functions they call (a reader that is a plain function
+		// instead of a method belongs to the cache all the same)
+		scope := map[*ssa.Function]bool{}
 		for _, fn := range p.Funcs {
 			if !inModule(fn) || fn.Blocks == nil {
 				continue
@@ -694,6 +697,16 @@ func c10CacheReadsOwnRepo(c *Ctx) {
 				root = root.Parent()
 			}
 			if root.Signature.Recv() == nil || pointeeName(root.Signature.Recv().Type()) != T {
+				continue
+			}
+			for _, h := range p.withHelpers(fn, 2) {
+				if inModule(h) && (h == fn || h.Signature.Recv() == nil) {
+					scope[h] = true
+				}
+			}
+		}
+		for _, fn := range p.Funcs {
+			if !scope[fn] {
 				continue
 			}
 			eachInstr(fn, func(_ *ssa.BasicBlock, _ int, in ssa.Instruction) {
